@@ -617,7 +617,75 @@ pub fn strategy() -> impl Strategy<Value = Case> {
         .prop_map(|(err, payload, ok, code, val, route)| Case { err, payload, ok, code, val, route })
 }
 
+/// An error type whose encoder can unwind (the documented `NonZeroI32::new(code).unwrap()` idiom
+/// meeting a code of 0): the error value is still destroyed exactly once and the slot stays untouched.
+pub mod unwinding {
+    use super::*;
+
+    pub struct FragileErr {
+        pub tok: HeapTok,
+        pub code: i32,
+    }
+    impl IntError for FragileErr {
+        fn into_int_err(self) -> NonZeroI32 {
+            NonZeroI32::new(self.code).expect("an error code of 0")
+        }
+        fn from_int_err(err: NonZeroI32) -> Self {
+            FragileErr { tok: HeapTok::new(7), code: err.get() }
+        }
+    }
+
+    #[derive(Debug, Clone, Serialize, Deserialize)]
+    pub struct UCase {
+        pub code: i32,
+        pub with_slot: bool,
+    }
+
+    pub fn check(c: &UCase) -> CaseResult {
+        let (r, rep) = tracked_confirmed(|| -> Result<bool, Fail> {
+            let e = FragileErr { tok: HeapTok::new(1), code: c.code };
+            let id = e.tok.id();
+            let mut slot = MaybeUninit::<HeapTok>::uninit();
+            unsafe { std::ptr::write_bytes(slot.as_mut_ptr() as *mut u8, POISON, std::mem::size_of::<HeapTok>()) };
+            let out = std::panic::catch_unwind(std::panic::AssertUnwindSafe(|| {
+                if c.with_slot {
+                    into_int_out_result::<HeapTok, FragileErr>(Err(e), &mut slot)
+                } else {
+                    into_int_result::<HeapTok, FragileErr>(Err(e))
+                }
+            }));
+            match out {
+                Ok(code) => ensure!(c.code != 0 && code == c.code, "code", "error code {} encoded as {code}", c.code),
+                Err(_) => ensure!(c.code == 0, "panic", "the encoder unwound for the non-zero code {}", c.code),
+            }
+            ensure!(tok::drops(id) == 1, "err-drop-count", "the error value was destroyed {} times (its encoder {})", tok::drops(id), if c.code == 0 { "unwound" } else { "returned" });
+            let bytes = unsafe { std::slice::from_raw_parts(slot.as_ptr() as *const u8, std::mem::size_of::<HeapTok>()) };
+            ensure!(bytes.iter().all(|b| *b == POISON), "slot-touched", "the output slot was written although the result was Err");
+            Ok(c.code == 0)
+        });
+        let nt = r?;
+        if !rep.clean() {
+            fail!(if rep.misuses.is_empty() { "leak" } else { "alloc-misuse" }, "{}", rep.describe());
+        }
+        Ok(Info::new(nt).class(if c.code == 0 { "encoder unwinds" } else { "encoder returns" }))
+    }
+
+    pub fn strategy() -> impl Strategy<Value = UCase> {
+        (prop_oneof![Just(0i32), any::<i32>()], any::<bool>()).prop_map(|(code, with_slot)| UCase { code, with_slot })
+    }
+}
+
 pub fn run(ctx: &Ctx) -> i32 {
+    if !ctx.is_replay() {
+        for code in [0, 1, -1, i32::MIN] {
+            for with_slot in [false, true] {
+                if !ctx.eval("encoder-unwinds", &unwinding::UCase { code, with_slot }, unwinding::check) {
+                    return ctx.finish(RULE, &[], false);
+                }
+            }
+        }
+    }
+    ctx.run("encoder-unwinds", if ctx.is_replay() { 1 } else { 200 }, unwinding::strategy(), unwinding::check);
     if ctx.is_replay() {
         ctx.run("encode-decode", 1, strategy(), check);
         ctx.run("os-codes", 1, strategy(), check);
@@ -665,4 +733,4 @@ pub fn run(ctx: &Ctx) -> i32 {
     ctx.finish(RULE, &["the output slot is pre-filled with a byte pattern; 'untouched' means byte-identical afterwards"], false)
 }
 
-const RULE: &str = "Result<T,E> with T in {(), u64, droppable heap token} x E in {io::Error from raw OS code, io::Error of a non-OS kind, (), fmt::Error, user IntError} x {Ok, Err} x {free functions, IntResult methods}: full product with edge codes enumerated, then random; plus all edge OS codes and a long pseudo-random stream of i32 codes through encode->decode. Oracle: code==0 iff Ok; on Ok the slot holds the very value (token identity) and it is dropped exactly once after decoding; on Err the poisoned slot is byte-identical afterwards and no value was created or dropped; decoding non-zero yields Err with the same OS code / user code; no shipped error encodes to 0. GENERATED half: a #[cglue_trait] with #[int_result] methods (Ok type (), u64, droppable token; error type user IntError with many codes, io::Error, (); by-ref, by-mut and consuming receivers; trait-level and method-level attribute; #[no_int_result] control) called through boxed / boxed+context / by-mut-reference opaque objects and compared with the direct call (variant AND error code), and the vtable entries called directly the way C does: status 0 iff Ok, the status is the error's own code, poisoned output slot untouched on Err, holding the very value on Ok (dropped once). Non-trivial = Err, or Ok with a droppable payload";
+const RULE: &str = "Result<T,E> with T in {(), u64, droppable heap token} x E in {io::Error from raw OS code, io::Error of a non-OS kind, (), fmt::Error, user IntError} x {Ok, Err} x {free functions, IntResult methods}: full product with edge codes enumerated, then random; plus all edge OS codes and a long pseudo-random stream of i32 codes through encode->decode. Oracle: code==0 iff Ok; on Ok the slot holds the very value (token identity) and it is dropped exactly once after decoding; on Err the poisoned slot is byte-identical afterwards and no value was created or dropped; decoding non-zero yields Err with the same OS code / user code; no shipped error encodes to 0. GENERATED half: a #[cglue_trait] with #[int_result] methods (Ok type (), u64, droppable token; error type user IntError with many codes, io::Error, (); by-ref, by-mut and consuming receivers; trait-level and method-level attribute; #[no_int_result] control) called through boxed / boxed+context / by-mut-reference opaque objects and compared with the direct call (variant AND error code), and the vtable entries called directly the way C does: status 0 iff Ok, the status is the error's own code, poisoned output slot untouched on Err, holding the very value on Ok (dropped once). UNWINDING encoder: a user error type whose into_int_err panics for the code 0 - the error value is still destroyed exactly once and the slot stays untouched. Non-trivial = Err, or Ok with a droppable payload";
